@@ -145,6 +145,23 @@ def build_race_harness():
     return exe
 
 
+def build_harness_386():
+    """the same harness for a platform whose uint is 32 bits (GOARCH=386, no cgo): used by the version checks, whose Epoch field is
+    a uint.  Returns None when such a binary cannot be built or run here (the stream is then skipped, with a note)."""
+    hdir = os.path.join(BUILD, "harness") if ALT else os.path.join(ROOT, "harness")
+    exe = os.path.join(BUILD, "implrun386")
+    env = dict(GOENV, GOARCH="386", CGO_ENABLED="0")
+    rc, out = sh(["go", "build", "-tags", "verif", "-o", exe, "./cmd/implrun"], cwd=hdir, env=env, timeout=900)
+    if rc != 0:
+        return None
+    try:
+        if run_lines(exe, [("vparse", [b"1:1.0"])]) != ["ok 1 x312e30 x"]:
+            return None
+    except Exception:
+        return None
+    return exe
+
+
 def run_concurrent(exe, cases, timeout=3600):
     """all cases in one process: 3 sequential runs each, then 16 goroutines running all of them at once"""
     data = ("\n".join(enc_case(c) for c in cases) + "\n").encode()
